@@ -86,80 +86,89 @@ structure SwapSt where
 def checkedSub64 (a b : Nat) (e : Err) : R Nat := if b ≤ a then .ok (a - b) else .error e
 def checkedAdd64 (a b : Nat) (e : Err) : R Nat := if a + b ≤ U64_MAX then .ok (a + b) else .error e
 
+/-- the amount bookkeeping of one iteration: (amount_remaining, amount_calculated) -/
+def stepAmounts (isInput : Bool) (remaining calculated : Nat) (sc : SwapStep) : R (Nat × Nat) :=
+  if isInput then
+    match checkedSub64 remaining sc.amountIn .AmountRemainingOverflow with
+    | .error e => .error e
+    | .ok r1 =>
+      match checkedSub64 r1 sc.feeAmount .AmountRemainingOverflow with
+      | .error e => .error e
+      | .ok r2 =>
+        match checkedAdd64 calculated sc.amountOut .AmountCalcOverflow with
+        | .error e => .error e
+        | .ok c1 => .ok (r2, c1)
+  else
+    match checkedSub64 remaining sc.amountOut .AmountRemainingOverflow with
+    | .error e => .error e
+    | .ok r1 =>
+      match checkedAdd64 calculated sc.amountIn .AmountCalcOverflow with
+      | .error e => .error e
+      | .ok c1 =>
+        match checkedAdd64 c1 sc.feeAmount .AmountCalcOverflow with
+        | .error e => .error e
+        | .ok c2 => .ok (r1, c2)
+
+structure CrossRes where
+  arrayIdx : Nat
+  tick : Int
+  liq : Nat
+  ticks : TickMap
+
+/-- tick crossing / current-tick-index update of one iteration -/
+def stepCross (c : SwapCtx) (s : SwapSt) (sc : SwapStep) (fgIn : Nat) (nextArrayIdx : Nat) (nextTickIdx : Int) (nextTickPrice : Nat) : R CrossRes :=
+  if sc.nextPrice = nextTickPrice then
+    let start? := c.arrays[nextArrayIdx]?
+    let tickInit := match start? with
+      | some start => inArrayUsable start c.ts nextTickIdx && (s.ticks.get nextTickIdx).initialized
+      | none => false
+    let crossed : R (Nat × TickMap) :=
+      if tickInit then
+        let t := s.ticks.get nextTickIdx
+        let ga := if c.aToB then fgIn else c.fgOtherA
+        let gb := if c.aToB then c.fgOtherB else fgIn
+        let upd := nextTickCrossUpdate t ga gb c.rewards
+        match addLiquidityDelta s.liq (if c.aToB then -t.net else t.net) with
+        | .error e => .error e
+        | .ok l => .ok (l, s.ticks.set nextTickIdx upd)
+      else .ok (s.liq, s.ticks)
+    match crossed with
+    | .error e => .error e
+    | .ok lt =>
+      match start? with
+      | none => .error .TickArrayIndexOutofBounds
+      | some start =>
+        if c.ts = 0 then .error .InvalidTickSpacing
+        else
+          let off : Int := (nextTickIdx - start) / (c.ts : Int)
+          let arrayIdx := if (c.aToB && off = 0) || (!c.aToB && off = (TICK_ARRAY_SIZE : Int) - 1) then nextArrayIdx + 1 else nextArrayIdx
+          .ok { arrayIdx := arrayIdx, tick := if c.aToB then nextTickIdx - 1 else nextTickIdx, liq := lt.1, ticks := lt.2 }
+  else if sc.nextPrice ≠ s.price then .ok { arrayIdx := s.arrayIdx, tick := ti sc.nextPrice, liq := s.liq, ticks := s.ticks }
+  else .ok { arrayIdx := s.arrayIdx, tick := s.tick, liq := s.liq, ticks := s.ticks }
+
 /-- one iteration of the inner `loop` of `swap` -/
 def swapStep (c : SwapCtx) (s : SwapSt) (nextArrayIdx : Nat) (nextTickIdx : Int) (nextTickPrice target : Nat) : R SwapSt :=
   let fm := s.fm.updateVolAcc
   let rate := fm.totalFeeRate
-  let (bounded, skipped) := fm.boundedTarget target s.liq
-  match computeSwap s.remaining rate s.liq s.price bounded c.isInput c.aToB with
+  let bs := fm.boundedTarget target s.liq
+  match computeSwap s.remaining rate s.liq s.price bs.1 c.isInput c.aToB with
   | .error e => .error e
   | .ok sc =>
-    let amounts : R (Nat × Nat) :=
-      if c.isInput then
-        match checkedSub64 s.remaining sc.amountIn .AmountRemainingOverflow with
-        | .error e => .error e
-        | .ok r1 =>
-          match checkedSub64 r1 sc.feeAmount .AmountRemainingOverflow with
-          | .error e => .error e
-          | .ok r2 =>
-            match checkedAdd64 s.calculated sc.amountOut .AmountCalcOverflow with
-            | .error e => .error e
-            | .ok c1 => .ok (r2, c1)
-      else
-        match checkedSub64 s.remaining sc.amountOut .AmountRemainingOverflow with
-        | .error e => .error e
-        | .ok r1 =>
-          match checkedAdd64 s.calculated sc.amountIn .AmountCalcOverflow with
-          | .error e => .error e
-          | .ok c1 =>
-            match checkedAdd64 c1 sc.feeAmount .AmountCalcOverflow with
-            | .error e => .error e
-            | .ok c2 => .ok (r1, c2)
-    match amounts with
+    match stepAmounts c.isInput s.remaining s.calculated sc with
     | .error e => .error e
-    | .ok (remaining, calculated) =>
+    | .ok ra =>
       match checkedAdd64 s.feeSum sc.feeAmount .AmountCalcOverflow with
       | .error e => .error e
       | .ok feeSum =>
-        let (protoFee, fgIn) := calculateFees sc.feeAmount c.protoRate s.liq s.protoFee s.fgIn
-        -- tick crossing / index update
-        let cross : R (Nat × Int × Nat × TickMap) :=
-          if sc.nextPrice = nextTickPrice then
-            let start? := c.arrays[nextArrayIdx]?
-            let tickInit := match start? with
-              | some start => inArrayUsable start c.ts nextTickIdx && (s.ticks.get nextTickIdx).initialized
-              | none => false
-            let crossed : R (Nat × TickMap) :=
-              if tickInit then
-                let t := s.ticks.get nextTickIdx
-                let (ga, gb) := if c.aToB then (fgIn, c.fgOtherB) else (c.fgOtherA, fgIn)
-                let upd := nextTickCrossUpdate t ga gb c.rewards
-                match addLiquidityDelta s.liq (if c.aToB then -t.net else t.net) with
-                | .error e => .error e
-                | .ok l => .ok (l, s.ticks.set nextTickIdx upd)
-              else .ok (s.liq, s.ticks)
-            match crossed with
-            | .error e => .error e
-            | .ok (liq, ticks) =>
-              match start? with
-              | none => .error .TickArrayIndexOutofBounds
-              | some start =>
-                if c.ts = 0 then .error .InvalidTickSpacing
-                else
-                  let off : Int := (nextTickIdx - start) / (c.ts : Int)
-                  let arrayIdx := if (c.aToB && off = 0) || (!c.aToB && off = (TICK_ARRAY_SIZE : Int) - 1) then nextArrayIdx + 1 else nextArrayIdx
-                  .ok (arrayIdx, if c.aToB then nextTickIdx - 1 else nextTickIdx, liq, ticks)
-          else if sc.nextPrice ≠ s.price then .ok (s.arrayIdx, ti sc.nextPrice, s.liq, s.ticks)
-          else .ok (s.arrayIdx, s.tick, s.liq, s.ticks)
-        match cross with
+        let fees := calculateFees sc.feeAmount c.protoRate s.liq s.protoFee s.fgIn
+        match stepCross c s sc fees.2 nextArrayIdx nextTickIdx nextTickPrice with
         | .error e => .error e
-        | .ok (arrayIdx, tick, liq, ticks) =>
-          let fmR : R FeeMgr := if !skipped then .ok fm.advance else fm.advanceAfterSkip sc.nextPrice nextTickPrice nextTickIdx
-          match fmR with
+        | .ok cr =>
+          match (if !bs.2 then (.ok fm.advance : R FeeMgr) else fm.advanceAfterSkip sc.nextPrice nextTickPrice nextTickIdx) with
           | .error e => .error e
           | .ok fm' =>
-            .ok { remaining := remaining, calculated := calculated, price := sc.nextPrice, tick := tick, liq := liq,
-                  protoFee := protoFee, arrayIdx := arrayIdx, fgIn := fgIn, feeSum := feeSum, fm := fm', ticks := ticks,
+            .ok { remaining := ra.1, calculated := ra.2, price := sc.nextPrice, tick := cr.tick, liq := cr.liq,
+                  protoFee := fees.1, arrayIdx := cr.arrayIdx, fgIn := fees.2, feeSum := feeSum, fm := fm', ticks := cr.ticks,
                   steps := (s.liq, rate, sc.amountIn, sc.amountOut, sc.feeAmount, sc.nextPrice) :: s.steps }
 
 /-- the two nested loops of `swap`; `inner = some (…)` while inside the inner `loop` -/
@@ -169,10 +178,8 @@ def swapLoop (c : SwapCtx) : Nat → SwapSt → Option (Nat × Int × Nat × Nat
     if s.remaining > 0 && c.limit ≠ s.price then
       match seqNextInit s.ticks c.arrays c.ts c.aToB (c.arrays.length + 1) s.tick s.arrayIdx with
       | .error e => .error e
-      | .ok (nai, nti) =>
-        let ntp := sp nti
-        let target := if c.aToB then max c.limit ntp else min c.limit ntp
-        swapLoop c fuel s (some (nai, nti, ntp, target))
+      | .ok r =>
+        swapLoop c fuel s (some (r.1, r.2, sp r.2, if c.aToB then max c.limit (sp r.2) else min c.limit (sp r.2)))
     else .ok s
   | fuel + 1, s, some (nai, nti, ntp, target) =>
     match swapStep c s nai nti ntp target with
@@ -196,36 +203,53 @@ structure PostSwap where
   steps : List (Nat × Nat × Nat × Nat × Nat × Nat)
   deriving Repr
 
-/-- `swap` -/
-def swap (p : PoolD) (ticks : TickMap) (arrays : List Int) (amount limit : Nat) (isInput aToB : Bool) (now : Nat)
-    (af : Option AfInfo) (fuel : Nat) : R PostSwap :=
-  let adj := if limit = NO_EXPLICIT_SQRT_PRICE_LIMIT then (if aToB then MIN_SQRT_PRICE_X64 else MAX_SQRT_PRICE_X64) else limit
+def adjLimit (limit : Nat) (aToB : Bool) : Nat :=
+  if limit = NO_EXPLICIT_SQRT_PRICE_LIMIT then (if aToB then MIN_SQRT_PRICE_X64 else MAX_SQRT_PRICE_X64) else limit
+
+def swapCtxOf (p : PoolD) (arrays : List Int) (limit : Nat) (isInput aToB : Bool) (rewards : List RewardInfo) : SwapCtx :=
+  { arrays := arrays, ts := p.ts, protoRate := p.protoRate, aToB := aToB, isInput := isInput, limit := adjLimit limit aToB,
+    fgOtherA := p.fgA, fgOtherB := p.fgB, rewards := rewards }
+
+def swapInit (p : PoolD) (ticks : TickMap) (amount : Nat) (aToB : Bool) (fm : FeeMgr) : SwapSt :=
+  { remaining := amount, calculated := 0, price := p.price, tick := p.tick, liq := p.liq, protoFee := 0,
+    arrayIdx := 0, fgIn := if aToB then p.fgA else p.fgB, feeSum := 0, fm := fm, ticks := ticks, steps := [] }
+
+/-- the epilogue of `swap`: partial-fill rule, amounts, major-swap timestamp -/
+def swapFinish (p : PoolD) (amount limit : Nat) (isInput aToB : Bool) (now : Nat) (rewards : List RewardInfo) (s : SwapSt) : R PostSwap :=
+  if s.remaining > 0 && !isInput && limit = NO_EXPLICIT_SQRT_PRICE_LIMIT then .error .PartialFillError
+  else
+    match s.fm.updateMajorSwapTs now p.price s.price with
+    | .error e => .error e
+    | .ok fm' =>
+      .ok { amountA := if aToB = isInput then amount - s.remaining else s.calculated,
+            amountB := if aToB = isInput then s.calculated else amount - s.remaining,
+            lpFee := s.feeSum - s.protoFee, liq := s.liq, tick := s.tick, price := s.price,
+            fgIn := s.fgIn, rewards := rewards, protoFee := s.protoFee, afInfo := fm'.nextInfo, ticks := s.ticks,
+            steps := s.steps.reverse }
+
+/-- the argument checks at the top of `swap` -/
+def swapGuard (p : PoolD) (amount limit : Nat) (aToB : Bool) : R Unit :=
+  let adj := adjLimit limit aToB
   if !(MIN_SQRT_PRICE_X64 ≤ adj && adj ≤ MAX_SQRT_PRICE_X64) then .error .SqrtPriceOutOfBounds
   else if (aToB && adj ≥ p.price) || (!aToB && adj ≤ p.price) then .error .InvalidSqrtPriceLimitDirection
   else if amount = 0 then .error .ZeroTradableAmount
-  else
+  else .ok ()
+
+/-- `swap` -/
+def swap (p : PoolD) (ticks : TickMap) (arrays : List Int) (amount limit : Nat) (isInput aToB : Bool) (now : Nat)
+    (af : Option AfInfo) (fuel : Nat) : R PostSwap :=
+  match swapGuard p amount limit aToB with
+  | .error e => .error e
+  | .ok _ =>
     match nextRewardInfos p now with
     | .error e => .error e
     | .ok rewards =>
       match FeeMgr.new aToB p.tick now p.feeRate af with
       | .error e => .error e
       | .ok fm =>
-        let c : SwapCtx := { arrays := arrays, ts := p.ts, protoRate := p.protoRate, aToB := aToB, isInput := isInput, limit := adj,
-                             fgOtherA := p.fgA, fgOtherB := p.fgB, rewards := rewards }
-        let s0 : SwapSt := { remaining := amount, calculated := 0, price := p.price, tick := p.tick, liq := p.liq, protoFee := 0,
-                             arrayIdx := 0, fgIn := if aToB then p.fgA else p.fgB, feeSum := 0, fm := fm, ticks := ticks, steps := [] }
-        match swapLoop c fuel s0 none with
+        match swapLoop (swapCtxOf p arrays limit isInput aToB rewards) fuel (swapInit p ticks amount aToB fm) none with
         | .error e => .error e
-        | .ok s =>
-          if s.remaining > 0 && !isInput && limit = NO_EXPLICIT_SQRT_PRICE_LIMIT then .error .PartialFillError
-          else
-            let (a, b) := if aToB = isInput then (amount - s.remaining, s.calculated) else (s.calculated, amount - s.remaining)
-            match s.fm.updateMajorSwapTs now p.price s.price with
-            | .error e => .error e
-            | .ok fm' =>
-              .ok { amountA := a, amountB := b, lpFee := s.feeSum - s.protoFee, liq := s.liq, tick := s.tick, price := s.price,
-                    fgIn := s.fgIn, rewards := rewards, protoFee := s.protoFee, afInfo := fm'.nextInfo, ticks := s.ticks,
-                    steps := s.steps.reverse }
+        | .ok s => swapFinish p amount limit isInput aToB now rewards s
 
 /-- `Whirlpool::update_after_swap` -/
 def updateAfterSwap (p : PoolD) (u : PostSwap) (aToB : Bool) (now : Nat) : PoolD :=
